@@ -12,24 +12,33 @@ and after `init()` every view the engine reads is the abstract one.
 `LtsC` has the four fields `states_`, `transitions_`, `data_` (per label the pair (post vectors, pre vectors)),
 `bwLabels_` (one `SmartSet` per state) as lists; `resize` is `resizeL`; `addTransition` grows `data_`, the two per-state
 vectors and `states_` exactly under the coded conditions (`states_` is touched only inside the two `if (x >= vec.size())`
-branches) and pushes to both lists; `init()` is the coded `bwLabels_.resize(states_, SmartSet(data_.size()))` followed by the
-nested loops (resize both vectors of the label, `bwLabels_[r].init(a, data_[a].second[r].size())`); `clear()` resets the
+branches) and pushes to both lists; `init()` is the coded (repaired, see below)
+`bwLabels_.assign(states_, SmartSet(data_.size()))` followed by the nested loops (resize both vectors of the label,
+`bwLabels_[r].init(a, data_[a].second[r].size())`); `clear()` resets the
 four fields.  A `SmartSet` is (range, linked list of (key, count) in list order); `init(key, count)` is `insert(key) = count`
 (append behind `last_` when the key is new) or the erase branch for `count == 0`.  `Op`/`run` are histories of calls on one
 object starting from `ExplicitLTS()`, `spec h` is the abstract system of the history (edges since the last `clear()` or
 construction in insertion order; `n` = max(given count, largest state + 1)).
 
-**What `init()` really does on a second call.**  There is NO early exit: all labels and all states are walked again, the
-sets that exist already are kept (their range too) and updated in place.  Two consequences, both kernel-checked below:
+**What was found, and the repair (defect D22).**  Up to commit 810ab7a9 of /repo `init()` began with
+`bwLabels_.resize(states_, SmartSet(data_.size()))`: on a second call the sets that existed already were kept (their range
+too) and updated in place.  The model of that code (`initOld` / `runOld`, kept below for the regressions) showed, kernel-checked:
 * a label that is new for a state is APPENDED behind the older ones, so `bwLabels(r)` is no longer increasing
-  (`C16_container_second_init_order`); it is still the right set with the right counts (`C16_container_views_after_init`);
+  (`C16_container_old_second_init_order`);
 * if the number of labels grew since the sets were created, `SmartSet::init` is called with `key ≥ index_.size()`: an
-  `assert` in debug builds, an out-of-bounds access of `index_` otherwise (`C16_container_second_init_overrun`;
-  exact criterion `C16_container_init_clean_iff`).  libvata itself only builds systems in one go
-  (`construct; addTransition*; init`, all four callers), where this cannot happen (`C16_container_one_go`).
+  `assert` in debug builds, an out-of-bounds access of `index_` otherwise (`C16_container_old_second_init_overrun`, the history
+  `add 0 0 0; init; add 1 1 1; init`, confirmed under ASan as a heap-buffer-overflow in `ExplicitLTS::init()`).
+Commit 810ab7a9 (`fix: ExplicitLTS::init() rebuilds its backward-label index`) replaced the line by
+`bwLabels_.assign(states_, Util::SmartSet(data_.size()))`: every set is built anew from the empty set with the range of the
+CURRENT labels.  `init` / `step` / `run` model the repaired code.  For it there is no `ub` hypothesis any more:
+`C16_container_never_overruns` (every history), `C16_container_views_after_init` (after any `init()` that follows the last
+`addTransition`, `bwLabels(r)` is the increasing abstract list, as a list).  There is still NO early exit: all labels and all
+states are walked on every call.  On an object without an index (fresh or cleared – the only pattern in libvata itself) old
+and repaired code do the same (`C16_container_repair_conservative`).
 
 **Abstracted.**  The pointer structure of `SmartSet` (`index_`, `last_`, heap elements) is the list of its elements plus the
-ghost flag `bad` (out-of-range key); `LtsC.ub` is the sticky ghost "some set went bad".  After `ub` nothing is claimed.
+ghost flag `bad` (out-of-range key); `LtsC.ub` is the sticky ghost "some set went bad" (proved never to be raised by the
+repaired class).  `assign(n, v)` is `List.replicate n v` (copies of an empty `SmartSet` are empty sets of the same range).
 `SmartSet::erase` does not reset `last_` when it removes the last element; `C16_container_init_never_erases` shows that the
 erase branch is never reached with a present key by any history.  `size_t` is `Nat`.  `computeSimulation` itself is the
 engine model.
@@ -54,64 +63,95 @@ theorem C16_container_spec_adds (n : Nat) (es : List (Nat × Nat × Nat)) :
     (spec (.construct n :: adds es)).edges = es := by
   simp [spec, List.foldl_cons, foldl_adds_spec, specStep]
 
-/-- **Every view after `init()`.**  If the history ends with `init()` (i.e. `init()` follows the last `addTransition`) and no
-`SmartSet` was overrun, then everything the engine reads equals the abstract view of the system `L = spec h`:
-`states()`, `labels()`, `post(a)[q]`, `pre(a)[r]` (equal as lists), the per-label vectors have length `states()` (the engine
-indexes them with every state), `bwLabels_` has one set per state, `bwLabels(r)` is a permutation of the increasing list
-`LE.bwLabels L r` (= the labels with an incoming edge) with `count(a) = |pre(a)[r]|`, it is EQUAL to it for every state whose
-set is created by this `init()`, and `buildDelta1` yields exactly `LE.delta1 L a` for every label. -/
-theorem C16_container_views_after_init (h : List Op) (hub : (run (h ++ [.init])).ub = false) :
+/-- **No overrun, every history.**  Whatever sequence of `ExplicitLTS(n)`, `addTransition`, `init`, `clear` was executed on
+the repaired class, no `SmartSet::init` / `insert` was ever called with `key ≥ index_.size()`: the ghost flag is never raised
+and no set of `bwLabels_` is marked.  (For the class as it was: `C16_container_old_second_init_overrun`.)  No hypothesis. -/
+theorem C16_container_never_overruns (h : List Op) :
+    (run h).ub = false ∧ ∀ r, r < (run h).bw.length → ((run h).bw.getD r default).bad = false :=
+  ⟨(binv_run h).ub, (binv_run h).bad⟩
+
+/-- **Every view after `init()`.**  If the history ends with `init()` (i.e. `init()` follows the last `addTransition`;
+`h` is ANY history, earlier `init()` calls, new labels and new states in between included), then everything the engine
+reads equals the abstract view of the system `L = spec h`: `states()`, `labels()`, `post(a)[q]`, `pre(a)[r]` (equal as lists),
+the per-label vectors have length `states()` (the engine indexes them with every state), `bwLabels_` has one set per state,
+`bwLabels(r)` IS the increasing list `LE.bwLabels L r` (= the labels with an incoming edge, in iteration order) with
+`count(a) = |pre(a)[r]|` for every `a`, every set has the range `labels()`, and `buildDelta1` yields exactly `LE.delta1 L a`
+for every label.  No hypothesis. -/
+theorem C16_container_views_after_init (h : List Op) :
     let c := run (h ++ [.init]); let L := spec h
     c.states = L.n ∧ c.labels = LE.labels L ∧
     (∀ a q, c.post a q = LE.post L a q) ∧ (∀ a r, c.pre a r = LE.pre L a r) ∧
     (∀ a, a < LE.labels L → (c.data.getD a ([], [])).1.length = L.n ∧ (c.data.getD a ([], [])).2.length = L.n) ∧
     c.bw.length = L.n ∧
-    (∀ r, r < L.n → (c.bwLabels r).Perm (LE.bwLabels L r) ∧
-      (∀ a, a < LE.labels L → c.bwCount r a = (LE.pre L a r).length) ∧
-      ((run h).bw.length ≤ r → c.bwLabels r = LE.bwLabels L r)) ∧
+    (∀ r, r < L.n → c.bwLabels r = LE.bwLabels L r ∧ (∀ a, c.bwCount r a = (LE.pre L a r).length) ∧
+      (c.bw.getD r default).range = LE.labels L) ∧
     c.buildDelta1.length = LE.labels L ∧
     (∀ a, a < LE.labels L → (c.buildDelta1.getD a default).keys = LE.delta1 L a) := by
-  rw [run_snoc] at hub ⊢
+  rw [run_snoc]
   have d := dinv_run h
-  have v := views_after_init _ _ d (binv_run h) hub
+  have v := views_after_init _ _ d
   have d' := dinv_init _ _ d
   have bd := buildDelta1_eq _ _ d' (fun a ha => by
     have := (v.2.2.2.2.2.1 a (by rw [← d'.labels]; exact ha)).1
     rw [this]; exact d'.states.symm)
-  exact ⟨v.1, v.2.1, v.2.2.2.1, v.2.2.2.2.1, v.2.2.2.2.2.1, v.2.2.2.2.2.2.1, v.2.2.2.2.2.2.2, bd.1,
+  exact ⟨v.1, v.2.1, v.2.2.2.1, v.2.2.2.2.1, v.2.2.2.2.2.1, v.2.2.2.2.2.2.1,
+    fun r hr => ⟨(v.2.2.2.2.2.2.2 r hr).1, (v.2.2.2.2.2.2.2 r hr).2.1, (v.2.2.2.2.2.2.2 r hr).2.2.1⟩, bd.1,
     fun a ha => (bd.2 a ha).1⟩
 
-/-- **When is `init()` clean.**  `init()` overruns no `SmartSet` exactly when nothing was overrun before and every set that
-exists already was created for the present number of labels (sets are created by the first `init()` after a `clear()` /
-construction, or by a later `init()` for states added meanwhile). -/
-theorem C16_container_init_clean_iff (h : List Op) :
-    (run (h ++ [.init])).ub = false ↔
-      (run h).ub = false ∧ ∀ r, r < (run h).bw.length → ((run h).bw.getD r default).range = (run h).labels := by
-  rw [run_snoc]; exact init_ub_iff _ _ (dinv_run h) (binv_run h)
+/-- **The index is exact after `init()`**, stated without the abstract view: for every state `r` the iterated list
+`bwLabels(r)` has no repetition and contains `a` exactly when `pre(a)[r]` of the object is non-empty. -/
+theorem C16_container_index_exact (h : List Op) (r : Nat) (hr : r < (run (h ++ [.init])).states) :
+    ((run (h ++ [.init])).bwLabels r).Nodup ∧
+    ∀ a, a ∈ (run (h ++ [.init])).bwLabels r ↔ (run (h ++ [.init])).pre a r ≠ [] := by
+  have v := C16_container_views_after_init h
+  simp only at v
+  rw [v.1] at hr
+  rw [(v.2.2.2.2.2.2.1 r hr).1]
+  refine ⟨nodup_bwLabels _ _, fun a => ?_⟩
+  rw [mem_bwLabels, v.2.2.2.1]
+  constructor
+  · exact fun m => m.2
+  · intro ne
+    refine ⟨?_, ne⟩
+    by_cases l : a < LE.labels (spec h)
+    · exact l
+    · have d := dinv_run h
+      rw [← d.pre, pre_nil_of_ge _ a r (by rw [d.labels]; omega)] at ne
+      exact absurd rfl ne
+
+/-- **`init()` forgets the old index** (`assign`): what `bwLabels_` held before the call has no influence on the result. -/
+theorem C16_container_init_forgets (c : LtsC) (bw' : List SSet) : init { c with bw := bw' } = init c := rfl
+
+/-- **The repair is conservative**: on an object without an index (`bwLabels_` empty – freshly constructed or cleared) the
+old `resize` and the new `assign` give the same object; so for the only pattern in libvata (`construct; addTransition*; init`,
+all four callers) nothing changed. -/
+theorem C16_container_repair_conservative (c : LtsC) (h : c.bw = []) : initOld c = init c := initOld_eq_init c h
+
+/-- the same at the level of histories: for `ExplicitLTS(n); addTransition(e) for e in es; init()` the object of the old class
+and that of the repaired class are EQUAL (all fields, the ghost flag included). -/
+theorem C16_container_repair_conservative_one_go (n : Nat) (es : List (Nat × Nat × Nat)) :
+    runOld (Op.construct n :: adds es ++ [.init]) = run (Op.construct n :: adds es ++ [.init]) := by
+  simp only [runOld, run, List.cons_append, List.foldl_cons, List.foldl_append, List.foldl_nil]
+  have e : stepOld (construct 0) (.construct n) = step (construct 0) (.construct n) := rfl
+  rw [e, foldl_adds_old]
+  exact initOld_eq_init _ (foldl_adds_bw es _).1
 
 /-- **Built in one go** (the only pattern in libvata: `explicit_tree_transl.hh`, `explicit_finite_translate.hh`): after
-`ExplicitLTS(n); addTransition(e) for e in es; init()` nothing is overrun and `bwLabels(r)` is exactly the increasing list of
-the labels with an incoming edge; the system is `⟨max(n, largest state + 1), es⟩`. -/
+`ExplicitLTS(n); addTransition(e) for e in es; init()` the system is `⟨max(n, largest state + 1), es⟩` and `bwLabels(r)` is
+exactly the increasing list of the labels with an incoming edge. -/
 theorem C16_container_one_go (n : Nat) (es : List (Nat × Nat × Nat)) :
     let h := Op.construct n :: adds es
-    (run (h ++ [.init])).ub = false ∧ (spec h).edges = es ∧
-    ∀ r, r < (spec h).n → (run (h ++ [.init])).bwLabels r = LE.bwLabels (spec h) r := by
+    (spec h).edges = es ∧ ∀ r, r < (spec h).n → (run (h ++ [.init])).bwLabels r = LE.bwLabels (spec h) r := by
   intro h
-  have hb : (run h).bw = [] ∧ (run h).ub = false := by
-    have := foldl_adds_bw es (step (construct 0) (.construct n))
-    exact this
-  have hub : (run (h ++ [.init])).ub = false :=
-    (C16_container_init_clean_iff h).2 ⟨hb.2, fun r hr => by rw [hb.1] at hr; cases hr⟩
-  refine ⟨hub, C16_container_spec_adds n es, fun r hr => ?_⟩
-  exact ((C16_container_views_after_init h hub).2.2.2.2.2.2.1 r hr).2.2 (by rw [hb.1]; exact Nat.zero_le _)
+  exact ⟨C16_container_spec_adds n es, fun r hr => ((C16_container_views_after_init h).2.2.2.2.2.2.1 r hr).1⟩
 
-/-- **The erase branch of `SmartSet::init` is dead.**  In every history (without an overrun) a key that is in `bwLabels_[r]`
-has a non-empty `pre(a)[r]`, so `init(a, 0)` never finds an element to erase (the branch whose `erase` forgets to reset
-`last_`). -/
-theorem C16_container_init_never_erases (h : List Op) (hub : (run h).ub = false) (r a : Nat)
+/-- **The erase branch of `SmartSet::init` is dead.**  In every history a key that is in `bwLabels_[r]` has a non-empty
+`pre(a)[r]`, so `init(a, 0)` never finds an element to erase (the branch whose `erase` forgets to reset `last_`).  (With the
+repaired `init()` the sets are fresh anyway; the statement also covers the states between `addTransition` calls.) -/
+theorem C16_container_init_never_erases (h : List Op) (r a : Nat)
     (ha : a ∈ (run h).bwLabels r) : (run h).pre a r ≠ [] := by
   by_cases hr : r < (run h).bw.length
-  · exact ((binv_run h).keys hub r hr).2 a ha
+  · exact ((binv_run h).keys r hr).2 a ha
   · have : (run h).bwLabels r = [] := by
       simp [LtsC.bwLabels, List.getD_eq_getElem?_getD, List.getElem?_eq_none (Nat.le_of_not_lt hr)]; rfl
     rw [this] at ha; cases ha
@@ -124,30 +164,44 @@ stage 1 `p -L→ t1, t2 -x→ t2`, `init()`; stage 2 `q -L→ t2`. -/
 def stage1 : List Op := [.add 0 0 2, .add 3 1 3, .init]
 def stage2 : List Op := stage1 ++ [.add 1 0 3]
 
+/-- the D22 history: a new label (and a new state) between two `init()` calls -/
+def d22 : List Op := [.add 0 0 0, .init, .add 1 1 1, .init]
+
 /-- **Stale without `init()`.**  After stage 2 without a second `init()` the object holds the new edge (`pre(L)[t2] = [q]`)
 but the engine would read `bwLabels(t2) = [x]`: label `L` is missing, the block of `t2` gets no counters and no remove set
-for `L`.  The abstract view is `[L, x]`. -/
+for `L`.  The abstract view is `[L, x]`.  (`init()` must follow the last `addTransition`; unchanged by the repair.) -/
 theorem C16_container_stale_without_init :
     (run stage2).pre 0 3 = [1] ∧ (run stage2).bwLabels 3 = [1] ∧ LE.bwLabels (spec stage2) 3 = [0, 1] := by decide
 
-/-- **The second `init()` rebuilds, in place.**  After stage 2 and `init()` the index is right as a set with the right counts
-but label `L` was appended behind `x`: the engine iterates `[x, L]`, the abstract model `[L, x]`.  (The coded `init()` has no
-early exit; nothing is overrun here because the number of labels did not change.) -/
-theorem C16_container_second_init_order :
-    (run (stage2 ++ [.init])).bwLabels 3 = [1, 0] ∧ LE.bwLabels (spec stage2) 3 = [0, 1] ∧
+/-- **The second `init()` rebuilds** (repaired code): after stage 2 and `init()` the engine iterates `[L, x]`, the abstract
+list, with the right count (instance of `C16_container_views_after_init`). -/
+theorem C16_container_second_init_rebuilt :
+    (run (stage2 ++ [.init])).bwLabels 3 = [0, 1] ∧ LE.bwLabels (spec stage2) 3 = [0, 1] ∧
     (run (stage2 ++ [.init])).bwCount 3 0 = 1 ∧ (run (stage2 ++ [.init])).ub = false := by decide
 
-/-- **The second `init()` overruns** when a label was added in between: `addTransition(0,0,0); init(); addTransition(1,1,1);
-init()` calls `bwLabels_[0].init(1, 0)` on a set of range 1 (`assert(key < index_.size())` / out-of-bounds read of `index_`). -/
-theorem C16_container_second_init_overrun :
-    (run [.add 0 0 0, .init, .add 1 1 1]).ub = false ∧ (run [.add 0 0 0, .init, .add 1 1 1, .init]).ub = true := by decide
+/-- **Regression, old code: the second `init()` updated in place.**  With `resize` the index after stage 2 and `init()` was
+right as a set with the right counts but label `L` was appended behind `x`: the engine iterated `[x, L]`, the abstract model
+`[L, x]`; the repaired class gives `[L, x]`. -/
+theorem C16_container_old_second_init_order :
+    (runOld (stage2 ++ [.init])).bwLabels 3 = [1, 0] ∧ LE.bwLabels (spec stage2) 3 = [0, 1] ∧
+    (runOld (stage2 ++ [.init])).bwCount 3 0 = 1 ∧ (runOld (stage2 ++ [.init])).ub = false ∧
+    (run (stage2 ++ [.init])).bwLabels 3 = [0, 1] := by decide
+
+/-- **Regression, old code: the second `init()` overran** (defect D22) when a label was added in between:
+`addTransition(0,0,0); init(); addTransition(1,1,1); init()` called `bwLabels_[0].init(1, 0)` on a set of range 1
+(`assert(key < index_.size())` / out-of-bounds read of `index_`; ASan: heap-buffer-overflow).  The repaired class builds two
+sets of range 2 on the same history and nothing is overrun. -/
+theorem C16_container_old_second_init_overrun :
+    (runOld [.add 0 0 0, .init, .add 1 1 1]).ub = false ∧ (runOld d22).ub = true ∧
+    ((runOld d22).bw.getD 0 default).range = 1 ∧ ((runOld d22).bw.getD 0 default).bad = true ∧
+    (run d22).ub = false ∧ (run d22).bw = [⟨2, [(0, 1)], false⟩, ⟨2, [(1, 1)], false⟩] := by decide
 
 /-- **Regression 1** (`C16-lts-init-early-return`: `if (bwLabels_.size() == states_) return;` in front of `init()`): on the
 two-stage history the patched object keeps the stale index `bwLabels(t2) = [x]` after the second `init()`, the coded one has
-`[x, L]`; the patched `init()` is visibly a different function (`initEarly`). -/
+`[L, x]`; the patched `init()` is visibly a different function (`initEarly`). -/
 theorem C16_container_regression_init_early :
     ((stage2 ++ [Op.init]).foldl stepEarly (construct 0)).bwLabels 3 = [1] ∧
-    (run (stage2 ++ [.init])).bwLabels 3 = [1, 0] ∧
+    (run (stage2 ++ [.init])).bwLabels 3 = [0, 1] ∧
     ¬ ((((stage2 ++ [Op.init]).foldl stepEarly (construct 0)).bwLabels 3).Perm (LE.bwLabels (spec stage2) 3)) := by
   refine ⟨by decide, by decide, fun h => ?_⟩
   have := h.length_eq
@@ -163,26 +217,34 @@ theorem C16_container_regression_dedup :
 
 /-! ### non-vacuity -/
 
-example : (run (stage2 ++ [.init])).ub = false := by decide
+example : (run d22).bwLabels 1 = LE.bwLabels (spec d22) 1 ∧ (run d22).bwLabels 1 = [1] := by decide
 example : (run [.construct 5, .add 0 0 2, .add 0 0 2, .add 4 2 0, .init]).states = 5 ∧
     (run [.construct 5, .add 0 0 2, .add 0 0 2, .add 4 2 0, .init]).bwLabels 2 = [0] ∧
     (run [.construct 5, .add 0 0 2, .add 0 0 2, .add 4 2 0, .init]).bwCount 2 0 = 2 ∧
     (run [.construct 5, .add 0 0 2, .add 0 0 2, .add 4 2 0, .init]).ub = false := by decide
+example : (run [.add 0 1 0, .init, .add 2 0 0, .add 1 3 0, .init]).bwLabels 0 = [0, 1, 3] ∧
+    (runOld [.add 0 1 0, .init, .add 2 0 0, .add 1 3 0, .init]).ub = true := by decide
 example : (abs (run (stage2 ++ [.clear, .add 1 0 0]))).edges = [(1, 0, 0)] := by decide
 example : (run stage2).bwLabels 3 ≠ [] ∧ 1 ∈ (run stage2).bwLabels 3 := by decide
+example : (run stage1).bw = [] → False := by decide
+example : runOld (Op.construct 3 :: adds [(0, 1, 2), (2, 0, 2)] ++ [.init]) =
+    run (Op.construct 3 :: adds [(0, 1, 2), (2, 0, 2)] ++ [.init]) := by decide
 
 /-!
 ## still not proved
 
-* The link to the ENGINE for histories with several `init()` calls: after a second `init()` the engine iterates
-  `bwLabels(r)` in a permuted order (`C16_container_second_init_order`), while the engine model (`LE.mkInset`,
-  `LE.moveInset`) takes the increasing `LE.bwLabels`.  That the engine's result does not depend on this order is not proved
-  here (for systems built in one go, `C16_container_one_go`, the lists are equal and the engine theorems apply verbatim).
+* A composed statement "`computeSimulation` on the object of a history = the engine model on `spec h`" is not a theorem:
+  the engine model (`LE.*`) takes the abstract `LTS` and COMPUTES its views from the edge list, it cannot be run on an
+  `LtsC`.  What is proved is that after `init()` every view the engine reads from the object EQUALS (lists, counts, vector
+  lengths) the view the engine model computes – for every history, several `init()` calls included; the order caveat of the
+  unrepaired class (`C16_container_old_second_init_order`) is gone.
 * The seeded regressions are shown on the container views only (stale / inconsistent view); that the engine then returns a
   non-simulation is shown by the C++ demos, not in Lean (the engine model cannot be fed an inconsistent `pre`/`bwLabels`).
-* Nothing is claimed after an overrun (`ub = true`); a history-level closed form of `C16_container_init_clean_iff`
-  ("the number of labels at every `init()` since the last `clear()` equals that of the first one that created a set") is
-  not stated.
+* For the class as it WAS only the two kernel-checked histories are kept (`runOld`); the general criterion of when the old
+  `init()` was clean (every existing set created for the present number of labels) was proved for the old model in T128 and
+  is not carried over.
+* That `assign` really releases and rebuilds the heap elements of the old sets (destructors of `SmartSet`, no leak) is
+  outside the model: a `SmartSet` is its element list.
 * `operator<<` iterates `q < data_[a].second.size()` while indexing `data_[a].first[q]` (safe only after `init()`); `abs`
   uses `states_` for the bound and `getD`; the printing itself is not modelled.
 -/
